@@ -27,6 +27,9 @@ func (c05) Gen(rng *rand.Rand, tier string, k int) *Case {
 	if rng.Intn(8) == 0 {
 		c.Shape = ShapeGlitch
 	}
+	if rng.Intn(12) == 0 {
+		c.Variant = 3 // every non-period parameter (thresholds included) zero
+	}
 	return c
 }
 
